@@ -5,7 +5,7 @@ sys.path.insert(0, os.path.dirname(os.path.dirname(os.path.abspath(__file__))))
 from vlib import run, gen_lp, model, iofmt, mutate, script as vscript
 from checks import solvefam as sf, hist, c07, iofam, c14, c16
 
-STREAMS = ["solve", "hist", "probe", "file-valid", "file-mutant", "basis-mutant", "missing", "basis", "copy"]
+STREAMS = ["solve", "hist", "probe", "file-valid", "file-mutant", "basis-mutant", "missing", "basis", "copy", "verdict"]
 
 
 def basis_text(rnd):
@@ -62,6 +62,14 @@ def workload(prop, tier, seed, stream, k):
                                 "write_basis p0 - @W@/nodir/x.bas", "read_prob p1 @W@ LP", "write_prob p0 @W@/x.foo FOO", "get_basis p0 b2", "dumpsol p0 1",
                                 "tableau p0", "get_infeas p0", "write_basis p0 - @W@/own.bas", "verify p0 b0 1"], 6)
         L = [x for x in L if not (x.startswith("verify") and "solved" not in " ".join(setup))]
+    elif stream == "verdict":
+        m = gen_lp.family(rnd, rnd.choice(["small-rand", "planted-opt", "degenerate", "planted-inf", "thin"]))
+        L = model.script_build(m, "p0") + ["set_param p0 5 3000", "set_param p0 4 %d" % rnd.choice([0, 1]), "solve_exact p0 %s b0 xy" % rnd.choice(["dual", "primal"]),
+                                           "dumpsol p0", "basis_optimalstatus p0 b0", "basis_dualstatus p0 b0", "verify p0 b0 %d %d" % (rnd.randint(0, 1), rnd.randint(0, 1)),
+                                           "verify p0 b0 %d %d" % (rnd.randint(0, 1), rnd.randint(0, 1)), "get_infeas p0", "tableau p0", "opt_dual p0", "tableau p0", "pivotin_row p0 1 0", "tableau p0"]
+        if m.nrows:
+            cs, rs = sf.random_basis(rnd, m)
+            L += ["make_basis b1 %d %d %s %s" % (m.ncols, m.nrows, cs, rs), "basis_optimalstatus p0 b1", "basis_dualstatus p0 b1", "verify p0 b1 1 0"]
     elif stream == "basis":
         c, m = c14.gen_case(tier, seed + 1000, k)
         L = c.script
@@ -145,10 +153,10 @@ def run_check(prop, tier, seed):
     rep = run.Report(prop, tier, seed, RULE)
     q = tier == "quick"
     plan = [("solve", 400 if q else 8000), ("hist", 120 if q else 3000), ("probe", 600 if q else 2885), ("file-valid", 300 if q else 6000), ("file-mutant", 1500 if q else 40000),
-            ("basis-mutant", 500 if q else 10000), ("missing", 200 if q else 2000), ("basis", 200 if q else 4000), ("copy", 60 if q else 2000)]
+            ("basis-mutant", 500 if q else 10000), ("missing", 200 if q else 2000), ("basis", 200 if q else 4000), ("copy", 60 if q else 2000), ("verdict", 150 if q else 4000)]
     payloads = []
     for stream, n in plan:
-        step = 12 if stream in ("hist", "copy", "solve") else 40
+        step = 12 if stream in ("hist", "copy", "solve", "verdict") else 40
         for s in range(0, n, step):
             payloads.append(dict(tier=tier, seed=seed, stream=stream, start=s, count=min(step, n - s), bindir=b["asan"]))
     fm = set()
